@@ -67,6 +67,15 @@ func (c *Ctx) call(x *ast.CallExpr, st *State) []Val {
 	}
 	fn := c.calleeFunc(x)
 	key := funcKey(fn)
+	if sel, ok := x.Fun.(*ast.SelectorExpr); ok && fn != nil && c.ifaceNil {
+		if s, ok := c.info.Selections[sel]; ok && s.Kind() == types.MethodVal {
+			if _, isIface := s.Recv().Underlying().(*types.Interface); isIface {
+				if iv, ok := c.eval(sel.X, st).(IfaceV); ok {
+					c.oblige(st, "safe.nil", c.pos(x.Pos()), "(not (= "+iv.Tag+" 0))", "method call on a non-nil interface value")
+				}
+			}
+		}
+	}
 	if fn != nil {
 		if m, ok := externModels[key]; ok {
 			return m(c, x, st)
@@ -438,6 +447,16 @@ func (c *Ctx) callBySpec(spec *FuncSpec, fn *types.Func, x *ast.CallExpr, st *St
 	}
 	sig := fn.Type().(*types.Signature)
 	var results []Val
+	pureKey := ""
+	if spec.Pure {
+		pureKey = "purespec:" + specKey(spec.Pkg, spec.Name) + "("
+		for _, k := range sortedKeys(binds) {
+			pureKey += k + "=" + valKey(c, binds[k]) + ","
+		}
+		if v, ok := c.specEnv[pureKey]; ok {
+			return []Val(v.(TupleV))
+		}
+	}
 	for i := 0; i < sig.Results().Len(); i++ {
 		rv := sig.Results().At(i)
 		v := c.symbolic(st, "r_"+fn.Name(), rv.Type())
@@ -450,6 +469,9 @@ func (c *Ctx) callBySpec(spec *FuncSpec, fn *types.Func, x *ast.CallExpr, st *St
 			binds[rv.Name()] = v
 		}
 	}
+	for i, r := range results {
+		binds[fmt.Sprintf("result%d", i)] = r
+	}
 	env = &SpecEnv{c: c, st: st, entry: pre, binds: binds, results: results, assume: true}
 	for _, en := range spec.Ensures {
 		if !c.content && hasQuant(en.Node) {
@@ -458,6 +480,9 @@ func (c *Ctx) callBySpec(spec *FuncSpec, fn *types.Func, x *ast.CallExpr, st *St
 		c.assumeSpec(st.guard, en, env)
 	}
 	c.usedSpecs[specKey(spec.Pkg, spec.Name)] = true
+	if pureKey != "" {
+		c.specEnv[pureKey] = TupleV(results)
+	}
 	return results
 }
 
@@ -631,6 +656,32 @@ func (c *Ctx) abstractCall(x *ast.CallExpr, fn *types.Func, st *State) []Val {
 		args = append(args, c.eval(a, st))
 	}
 	pure := fn != nil && fn.Pkg() != nil && purePkgs[fn.Pkg().Path()]
+	if pure {
+		// pure library calls are functions of receiver and arguments: the same call yields the same value
+		key := "pure:" + name + "("
+		for _, a := range args {
+			key += valKey(c, a) + ","
+		}
+		if v, ok := c.specEnv[key]; ok {
+			if tv, isT := v.(TupleV); isT {
+				return tv
+			}
+			return []Val{v}
+		}
+		defer func(key string) {
+			if r := recover(); r != nil {
+				panic(r)
+			}
+		}(key)
+		out := c.abstractResults(x, st)
+		if len(out) == 1 {
+			c.specEnv[key] = out[0]
+		} else if len(out) > 1 {
+			c.specEnv[key] = TupleV(out)
+		}
+		c.abstracted("pure call " + name)
+		return out
+	}
 	if !pure {
 		for _, a := range args {
 			switch v := a.(type) {
@@ -646,6 +697,10 @@ func (c *Ctx) abstractCall(x *ast.CallExpr, fn *types.Func, st *State) []Val {
 		}
 	}
 	c.abstracted("call " + name)
+	return c.abstractResults(x, st)
+}
+
+func (c *Ctx) abstractResults(x *ast.CallExpr, st *State) []Val {
 	tv := c.info.TypeOf(x)
 	var out []Val
 	switch t := tv.(type) {
@@ -799,4 +854,32 @@ func hasQuant(n SpecNode) bool {
 		}
 	}
 	return false
+}
+
+// valKey: a canonical key of a value for functional (pure) call caching
+func valKey(c *Ctx, v Val) string {
+	switch x := v.(type) {
+	case Scalar:
+		return x.T
+	case PtrV:
+		return "p" + x.Ref + "@" + x.Cell
+	case IfaceV:
+		return "i" + x.Tag + ":" + x.Ref
+	case ErrV:
+		return "e" + x.T
+	case SliceV:
+		if id, ok := c.strID(x); ok {
+			return fmt.Sprintf("str%d", id)
+		}
+		return "s" + x.Arr + "/" + x.Region + "/" + x.Off + "/" + x.Len
+	case StructV:
+		k := "{"
+		for _, f := range sortedKeys(x.F) {
+			k += f + "=" + valKey(c, x.F[f]) + ";"
+		}
+		return k + "}"
+	case OpaqueV:
+		return "opaque"
+	}
+	return fmt.Sprintf("%T", v)
 }
